@@ -4,7 +4,6 @@
 import json, glob, os, re
 NOTES = {
  'C13-m1': 'not reachable through the component: fetch, removal and block notification all run on the single mempool actor goroutine, puts take the list lock; only direct calls of unexported methods from several goroutines (the demo) expose it',
- 'C02-m1': 'quick misses: needs a DAO tally with two tied candidates, which the quick mix produces too rarely',
  'C03-no-rollback-on-rejected-tx': 'no observable difference found: state is staged into the block state only on success, and run-time failures are rolled back inside executeTx (fix 6)',
  'C05-abandoned-tx-index-kept': 'outside the statement: C05 requires main-chain transactions to resolve, it does not forbid stale index entries of abandoned blocks (they resolve to a stored block)',
  'C20-nestedview-not-counted': 'masked: the executor increments the same counter when it enters a view function, so the callback-side increment is redundant for every entry point the check can reach',
